@@ -280,13 +280,13 @@ func c08Nested(d int, kinds []string) [][]string {
 }
 
 func checkC08(c *Ctx) {
-	c.Rule = "programs = every well-formed sequence of <= L scoping operations (declare, var, assign, print, open/close of 7 block kinds, nesting <= 3; a second alphabet with the openers whose header declares the name itself: for name := ..., for name := range, for _, name := range, if name := ...; ending in a print after the last block closed and containing a declaration inside a block) on one name that is a package-level variable (L), a parameter (L-1) or the imported package name fmt (L-1; also holding a struct reference whose field is read and compound-assigned, L-2); plus seeded random programs with shadowing; distinct_nontrivial = distinct programs"
+	c.Rule = "programs = every well-formed sequence of <= L scoping operations (declare, var, assign, print, open/close of 7 block kinds, nesting <= 3; a second alphabet with the openers whose header declares the name itself: for name := ..., for name := range, for _, name := range, if name := ...; ending in a print after the last block closed and containing a declaration inside a block) on one name that is a package-level variable (L), a parameter (L-1) or the imported package name fmt (L-1; also holding a struct reference whose field is read and compound-assigned, L-1); plus seeded random programs with shadowing; distinct_nontrivial = distinct programs"
 	c.Assumptions = []string{"MiniGo.tla is calibrated against the Go toolchain on a deterministic sample of the programs", "loop bodies run twice so that per-iteration freshness is visible"}
 	L := c.pick(6, 7)
 	progs := c08Programs(L, "x")
 	progs = append(progs, c08Programs(L-1, "p")...)
 	progs = append(progs, c08Programs(L-1, "fmt")...)
-	progs = append(progs, c08Programs(L-2, "fmtS")...)
+	progs = append(progs, c08Programs(L-1, "fmtS")...)
 	// headers that declare the name itself (for name := ...; for name := range; for _, name := range)
 	progs = append(progs, c08ProgramsOver(c08OpsHeader, "/hdr", L-1, "x")...)
 	progs = append(progs, c08ProgramsOver(c08OpsHeader, "/hdr", L-2, "p")...)
